@@ -1,5 +1,6 @@
 import Gv.Oracle.Cli
 import Gv.Model.Fmt.Phylip
+import Gv.Model.Fmt.Stockholm
 import Gv.Gen.FmtFacts
 /-!
 Command-line glue of two commands of property C11 whose bytes are a function of the input only:
@@ -113,8 +114,27 @@ def expectedNalignPhylip (stdin : String) : Option String :=
   | .done als ok => if als.isEmpty then none else some (if ok then "rc=0 out=" ++ toString als.length ++ "|" else "rc=1 out=")
   | _ => none
 
+/-- the Stockholm file goalign writes for these rows (`Model/Fmt/Stockholm.lean` `write`, the writer of
+`C02.roundtrip_stockholm` and of the chain theorems of C11), newline as `|`, tab as `~` -/
+def stockholmText (rows : Rows) : String :=
+  ((stringOfBytes (Fmt.Stockholm.write (rows.map fun r => (bytesOfString r.1, r.2)))).replace "\n" "|").replace "\t" "~"
+
+/-- `detchainsto`: the driver answers `same … sto=<the Stockholm file the chain started from>` when every chain it ran
+agreed; the file must also be the one the writer model predicts for the rows of the FASTA input -/
+def chainStoVerdict (stdin impl : String) : Ans :=
+  if !impl.startsWith "same" then ⟨"same", "fail:stockholm-chain-changes-bytes"⟩ else
+  let rows := parseFasta (stdin.splitOn "|")
+  match impl.splitOn " sto=" with
+  | [_, sto] =>
+    -- the input is read back faithfully (one line per sequence, as the generator writes it), plain ASCII
+    if String.join (rows.map fun x => ">" ++ x.1 ++ "|" ++ stringOfBytes x.2 ++ "|") != stdin ||
+       rows.any (fun r => r.2.any (· ≥ 128)) then ⟨"same", "pass"⟩ else
+    ⟨"same", verdictOf (sto == stockholmText rows) "stockholm-file-differs-from-the-writer-model"⟩
+  | _ => ⟨"same", "pass"⟩
+
 def handle : Handler := fun op args impl =>
   match op, args with
+  | "detchainsto", stdin :: _ => some (chainStoVerdict stdin impl)
   | "cli_lib", [stdin, "stats", "nalign", p] =>
     if p != "-p" && p != "--phylip" then none else
     match expectedNalignPhylip stdin with
